@@ -39,6 +39,19 @@ RefProtectRaw(h, first, plain, su, keys, initiator, iv) ==
       gen     == << first, 0 >> \o U16(4 + bodyLen)
       front   == Cat(<< Lit(hdr \o gen), iv, Cbc(keys[EncKeyName(initiator)], iv, Lit(plain)) >>)
   IN Cat(<< front, Slice(Hmac(su.integ, keys[IntegKeyName(initiator)], front), 0, IcvLen(su.integ)) >>)
+\* the same with unsupported payloads `pre` (a sequence of [t, crit, body]) in the CLEARTEXT chain in front of the Encrypted payload;
+\* the checksum covers them like everything else before it
+RefProtectOuter(h, pre, first, plain, su, keys, initiator, iv) ==
+  LET bodyLen == 16 + Len(plain) + IcvLen(su.integ)
+      n       == Len(pre)
+      one(i)  == << (IF i < n THEN pre[i + 1].t ELSE 46), pre[i].crit * 128 >> \o U16(4 + Len(pre[i].body)) \o pre[i].body
+      RECURSIVE cat(_)
+      cat(i)  == IF i > n THEN << >> ELSE one(i) \o cat(i + 1)
+      preb    == cat(1)
+      hdr     == EncHeader(h, IF n = 0 THEN 46 ELSE pre[1].t, Len(preb) + 4 + bodyLen)
+      gen     == << first, 0 >> \o U16(4 + bodyLen)
+      front   == Cat(<< Lit(hdr \o preb \o gen), iv, Cbc(keys[EncKeyName(initiator)], iv, Lit(plain)) >>)
+  IN Cat(<< front, Slice(Hmac(su.integ, keys[IntegKeyName(initiator)], front), 0, IcvLen(su.integ)) >>)
 \* minimal padding of inner octets to a block multiple
 Padded(inner) == inner \o Zeros(MinPad(Len(inner))) \o << MinPad(Len(inner)) >>
 ProtectedLen(m, su, padLen) == 28 + 4 + 16 + Len(EncChain(NormChain(m.payloads))) + padLen + 1 + IcvLen(su.integ)
